@@ -754,3 +754,88 @@ Qed.
 (* the window the constructor computes is always admissible *)
 Lemma initial_cap_ok page min_buffer : 1 <= page -> page <= initial_cap page min_buffer /\ 1 <= initial_cap page min_buffer.
 Proof. intros H. unfold initial_cap, fp_init_add, fp_init_min_pages. nia. Qed.
+
+(* ------------------------------------------------------------------ other loops over ReadCompressed::Read (C03) *)
+Lemma rc_read_or_eof_loop_ok : forall fuel amount acc rc o,
+  rc_wf rc o -> no_err (os_script o) = true -> amount < fuel ->
+  exists l rc' o', rc_read_or_eof_loop fuel amount acc rc o = (Ok (acc ++ l), rc', o') /\
+    rc_pending rc ++ os_src o = l ++ rc_pending rc' ++ os_src o' /\ length l <= amount /\
+    (length l < amount -> rc_pending rc' ++ os_src o' = []) /\ rc_wf rc' o' /\ no_err (os_script o') = true.
+Proof.
+  induction fuel as [|f IH]; intros amount acc rc o Hwf Hne Hf; [lia|].
+  destruct amount as [|r].
+  - exists [], rc, o. simpl. rewrite app_nil_r. repeat split; auto; lia.
+  - cbn [rc_read_or_eof_loop].
+    destruct (rc_read_spec (S r) rc o) as (l & rc1 & o1 & E & Hd & Hl & Hnil & Hwf1 & Hne1); auto; [lia|].
+    rewrite E. destruct l as [|b l].
+    + exists [], rc1, o1. rewrite app_nil_r. simpl in *. repeat split; auto; lia.
+    + destruct (IH (S r - length (b :: l)) (acc ++ b :: l) rc1 o1 Hwf1 Hne1) as (l2 & rc2 & o2 & E2 & Hd2 & Hl2 & Hn2 & Hwf2 & Hne2).
+      { simpl in *. lia. }
+      exists ((b :: l) ++ l2), rc2, o2. rewrite E2, <- app_assoc. split; [reflexivity|].
+      repeat split; auto.
+      * rewrite Hd, Hd2, <- app_assoc. reflexivity.
+      * rewrite app_length. simpl in *. lia.
+      * intros HH. apply Hn2. rewrite app_length in HH. simpl in *. lia.
+Qed.
+
+Lemma prefix_firstn {A} (l r : list A) n : length l <= n -> (length l < n -> r = []) -> l = firstn n (l ++ r).
+Proof.
+  intros H1 H2. destruct (Nat.eq_dec (length l) n) as [<-|Hne].
+  - rewrite firstn_app, Nat.sub_diag, firstn_all. simpl. rewrite app_nil_r. reflexivity.
+  - rewrite H2 by lia. rewrite app_nil_r. rewrite firstn_all2 by lia. reflexivity.
+Qed.
+
+(* ReadCompressed(fd).ReadOrEOF(to, amount) returns exactly the first min(amount, |src|) bytes *)
+Theorem rc_open_read_or_eof_exact amount src script :
+  no_err script = true -> detect_magic src = false ->
+  exists o', rc_open_read_or_eof amount (os_init src script) = (Ok (firstn amount src), o').
+Proof.
+  intros Hne Hm. unfold rc_open_read_or_eof.
+  destruct (read_factory_spec (os_init src script) Hne Hm) as (rc & o1 & E & Hp & Hwf & Hne1). rewrite E.
+  unfold rc_read_or_eof.
+  destruct (rc_read_or_eof_loop_ok (S amount) amount [] rc o1 Hwf Hne1) as (l & rc2 & o2 & E2 & Hd & Hl & Hn & _); [lia|].
+  rewrite E2. exists o2. simpl. f_equal. f_equal.
+  simpl in Hp. rewrite <- Hp, Hd. apply prefix_firstn; assumption.
+Qed.
+
+(* WARC body loop: exactly the missing bytes, whatever the fragmentation *)
+Lemma warc_body_loop_ok : forall fuel missing acc rc o,
+  rc_wf rc o -> no_err (os_script o) = true -> missing < fuel -> missing <= length (rc_pending rc ++ os_src o) ->
+  exists rc' o', warc_body_loop fuel missing acc rc o = (Ok (acc ++ firstn missing (rc_pending rc ++ os_src o)), rc', o') /\
+    rc_pending rc' ++ os_src o' = skipn missing (rc_pending rc ++ os_src o) /\ rc_wf rc' o' /\ no_err (os_script o') = true.
+Proof.
+  induction fuel as [|f IH]; intros missing acc rc o Hwf Hne Hf Hlen; [lia|].
+  destruct missing as [|r].
+  - exists rc, o. simpl. rewrite app_nil_r. auto.
+  - cbn [warc_body_loop].
+    destruct (rc_read_spec (S r) rc o) as (l & rc1 & o1 & E & Hd & Hl & Hnil & Hwf1 & Hne1); auto; [lia|].
+    rewrite E. destruct l as [|b l0] eqn:El.
+    + exfalso. rewrite Hd, (Hnil eq_refl) in Hlen. simpl in Hlen. lia.
+    + assert (Hpos : 1 <= length l) by (rewrite El; simpl; lia).
+      rewrite <- El in *. clear El.
+      destruct (IH (S r - length l) (acc ++ l) rc1 o1 Hwf1 Hne1) as (rc2 & o2 & E2 & Hd2 & Hwf2 & Hne2).
+      { lia. }
+      { rewrite Hd, app_length in Hlen. lia. }
+      exists rc2, o2. rewrite E2. split; [|split; [|auto]].
+      * f_equal. f_equal. rewrite <- app_assoc. f_equal. rewrite Hd.
+        rewrite (firstn_app_le l (rc_pending rc1 ++ os_src o1) (S r) Hl). reflexivity.
+      * rewrite Hd2, Hd. rewrite (skipn_app_le l (rc_pending rc1 ++ os_src o1) (S r) Hl). reflexivity.
+Qed.
+
+(* ReadStream::ReadInput refills: the codec is handed the compressed file, in order, once *)
+Lemma read_stream_refills_ok : forall fuel bufsize o,
+  1 <= bufsize -> no_err (os_script o) = true -> length (os_src o) < fuel ->
+  exists ls o', read_stream_refills fuel bufsize o = (Ok ls, o') /\ concat ls = os_src o /\
+    Forall (fun l => 1 <= length l <= bufsize) ls /\ os_src o' = [].
+Proof.
+  induction fuel as [|f IH]; intros bufsize o Hb Hne Hf; [lia|].
+  cbn [read_stream_refills].
+  destruct (read_or_eof_ok bufsize o Hne) as (l & o1 & E & Hd & Hl & Hshort & Hne1 & _). rewrite E.
+  destruct l as [|b l].
+  - exists [], o1. simpl in *. repeat split; auto. rewrite Hd. symmetry. apply Hshort. lia.
+  - destruct (IH bufsize o1 Hb Hne1) as (ls & o2 & E2 & Hc & Hall & Hs).
+    { rewrite Hd, app_length in Hf. simpl in *. lia. }
+    rewrite E2. exists ((b :: l) :: ls), o2. repeat split; auto.
+    + simpl. rewrite Hc. simpl in Hd. rewrite Hd. reflexivity.
+    + constructor; [simpl in *; lia|exact Hall].
+Qed.
